@@ -15,8 +15,11 @@ BASELINE_OFF = ("rm -rf /tmp/phosg_baseline_off && cmake -G Ninja -S /repo -B /t
 def main():
     checks = []
     na = []
+    props.SPECS.load_all()
+    with open(os.path.join(VERIF, "vf", "integrated.txt")) as f:
+        integrated = set(f.read().split())
     for pid in ALL:
-        spec = props.SPECS.get(pid)
+        spec = props.SPECS.get(pid) if (pid in props.SPECS and pid in integrated) else None
         if not spec or spec.get("disabled"):
             na.append({"property_id": pid, "reason": (spec or {}).get("disabled") or "check not built yet in this session (no claim made)"})
             continue
